@@ -54,6 +54,8 @@ class Rt:
         self.busidx = {}     # bus -> index
         self.buses = []
         self.hidx = {}       # (bus idx, id(handler callable)) -> handler index k
+        self.hfn = {}        # (bus idx, handler index k) -> the registered callable
+        self.inst_real = {}  # instance -> (event object it handles, bus idx, handler index)
         self.hkind = {}      # k -> kind
         self.inst_of_task = {}
         self.syncstack = {}
@@ -371,10 +373,27 @@ class TBus(EventBus):
                 i = RT.last_inst.get((src, ce, k))
                 if i is not None:
                     p = f'I{i}'
+                    RT.inst_real[i] = (cur, src, k)
         b = RT.busidx[self]
+
+        def lineage():
+            # what the real objects say after the call: the event's parent, and how often it occurs among the
+            # children of the dispatching handler's own result
+            par = RT.eid.get(event.event_parent_id) if event.event_parent_id else None
+            n = None
+            if p.startswith('I') and int(p[1:]) in RT.inst_real:
+                hev, hb, hk = RT.inst_real[int(p[1:])]
+                fn = RT.hfn.get((hb, hk))
+                if fn is not None:
+                    res = hev.event_results.get(mdl.get_handler_id(fn, RT.buses[hb]))
+                    if res is not None:
+                        n = sum(1 for c in res.event_children if c is event)
+            return par, n
         try:
             r = super().dispatch(event)
-            RT.rec('dispatch', p=p, b=b, e=e, res='ok', hist=bussnap(self)['hist'], q=bussnap(self)['q'], same=(r is event))
+            par, n = lineage()
+            RT.rec('dispatch', p=p, b=b, e=e, res='ok', hist=bussnap(self)['hist'], q=bussnap(self)['q'], same=(r is event),
+                   parent=par, nchild=n)
             return r
         except BaseException as ex:
             res = {'RuntimeError': 'capacity', 'QueueFull': 'queueFull', 'QueueShutDown': 'shutDown'}.get(type(ex).__name__, type(ex).__name__)
@@ -570,6 +589,7 @@ def make_handler(bi, k, h):
             i = claim(e)
             RT.rec('hStart', i=i, b=bi, e=e, h=k)
             RT.syncstack.setdefault(t, []).append(i)
+            RT.inst_real[i] = (event, bi, k)
             try:
                 v = run_prog_sync(i, bi, event, prog)
                 RT.rec('hEnd', i=i, out='ret')
@@ -588,6 +608,7 @@ def make_handler(bi, k, h):
         e = eid(event)
         i = claim(e)
         RT.inst_of_task[asyncio.current_task()] = i
+        RT.inst_real[i] = (event, bi, k)
         RT.rec('hStart', i=i, b=bi, e=e, h=k)
         try:
             v = await run_prog(i, bi, event, prog, False)
@@ -802,6 +823,7 @@ async def run_sc(sc):
             bus.on(key, fn)
         # the id bubus will use for this handler
         RT.hidx[(h['bus'], id(bus.handlers[keys[0]][-1]))] = k
+        RT.hfn[(h['bus'], k)] = bus.handlers[keys[0]][-1]
     tasks = []
     for x, prog in enumerate(sc['tasks']):
         tasks.append(asyncio.ensure_future(ext_task(x, prog, {})))
